@@ -160,7 +160,7 @@ func (fr *frame) block(b *ssa.BasicBlock, st *state) {
 			for _, r := range x.Results {
 				rs = append(rs, fr.val(r))
 			}
-			fr.rets = append(fr.rets, retInfo{cond: fr.cond[b], st: st.clone(), results: rs})
+			fr.rets = append(fr.rets, retInfo{block: b, pos: fr.vc.pos(x.Pos()), cond: fr.cond[b], st: st.clone(), results: rs})
 		case *ssa.Panic:
 			fr.oblPanic(b, "explicit", x, "true")
 		default:
@@ -210,22 +210,37 @@ func (fr *frame) doAlloc(b *ssa.BasicBlock, st *state, x *ssa.Alloc) {
 	if at, ok := el.Underlying().(*types.Array); ok {
 		if at.Len() <= 16 {
 			for i := int64(0); i < at.Len(); i++ {
-				fr.assumeZeroAt(st, fmt.Sprintf("(elem %s %d)", r, i), at.Elem())
+				fr.assumeZeroAt(st, fmt.Sprintf("(elem %s %d)", r, i), at.Elem(), x, fmt.Sprintf("e%d/", i))
 			}
 		} else {
 			c.unsup("large array allocation")
 		}
 		return
 	}
-	fr.assumeZeroAt(st, r, el)
+	fr.assumeZeroAt(st, r, el, x, "")
 }
 
-func (fr *frame) assumeZeroAt(st *state, a string, t types.Type) {
+// assumeZeroAt: the cells of a fresh object hold zero values, except those written by an initialising store.
+func (fr *frame) assumeZeroAt(st *state, a string, t types.Type, alloc *ssa.Alloc, prefix string) {
 	c := fr.vc.c
-	for _, lf := range c.leaves(t) {
-		k := c.cellKey(lf.typ)
-		fr.vc.assumeG(fmt.Sprintf("(= (select %s %s) %s)", c.heapGet(st, k), addrPath(a, lf.fids), c.zero(lf.typ)))
+	var rec func(t types.Type, addr, path string)
+	rec = func(t types.Type, addr, path string) {
+		if stt, ok := t.Underlying().(*types.Struct); ok {
+			for i := 0; i < stt.NumFields(); i++ {
+				rec(stt.Field(i).Type(), fmt.Sprintf("(fld %s %d)", addr, fr.vc.w.fieldID(t, i)), path+fmt.Sprintf("f%d/", i))
+			}
+			return
+		}
+		if _, isArr := t.Underlying().(*types.Array); isArr {
+			return
+		}
+		if alloc != nil && fr.inits.covered(alloc, path) {
+			return
+		}
+		k := c.cellKey(t)
+		fr.vc.assumeG(fmt.Sprintf("(= (select %s %s) %s)", c.heapGet(st, k), addr, c.zero(t)))
 	}
+	rec(t, a, prefix)
 }
 
 // regAccess resolves an address rooted at a register local: returns key, selector path.
@@ -312,6 +327,15 @@ func (fr *frame) doStore(b *ssa.BasicBlock, st *state, x *ssa.Store) {
 		return
 	}
 	a := fr.val(x.Addr)
+	if fr.inits.stores[x] {
+		// initialising store: a fact about the current array, no new version
+		v := fr.val(x.Val)
+		for _, lf := range c.leaves(x.Val.Type()) {
+			k := c.cellKey(lf.typ)
+			fr.vc.assumeG(fmt.Sprintf("(= (select %s %s) %s)", c.heapGet(st, k), addrPath(a, lf.fids), applySels(v, lf.sels)))
+		}
+		return
+	}
 	if fr.needNilCheck(x.Addr) {
 		fr.oblPanic(b, "nil", x, fmt.Sprintf("(= %s nil)", a))
 		fr.assumeOK(b, fmt.Sprintf("(distinct %s nil)", a))
@@ -697,4 +721,88 @@ func (fr *frame) doNext(b *ssa.BasicBlock, st *state, x *ssa.Next) {
 	c.assume(fmt.Sprintf("(= %s (ite %s (store %s %s true) %s))", nv, okn, V, kn, V))
 	st.heap[ik] = nv
 	fr.tuples[x] = []string{okn, kn, vn}
+}
+
+// ---------------------------------------------------------------------------------------------
+// Initialising stores: the first store into a cell of an object allocated in the same basic block, before the
+// object can have been read or have escaped. Such a store is modelled as a fact about the current heap array
+// ("the cell holds v") instead of a new array version, exactly like the zero-initialisation of an allocation.
+// This keeps heap versions (and with them heap-dependent spec terms) stable across local construction of
+// composite literals, spilled parameters and varargs arrays.
+
+type initInfo struct {
+	stores map[*ssa.Store]bool
+	paths  map[*ssa.Alloc][]string // initialised paths ("f<fid>/" and "e<idx>/" steps)
+}
+
+func computeInitStores(fn *ssa.Function, regs map[*ssa.Alloc]bool) *initInfo {
+	info := &initInfo{stores: map[*ssa.Store]bool{}, paths: map[*ssa.Alloc][]string{}}
+	for _, b := range fn.Blocks {
+		type drv struct {
+			a    *ssa.Alloc
+			path string
+		}
+		derived := map[ssa.Value]drv{}
+		alive := map[*ssa.Alloc]bool{}
+		for _, ins := range b.Instrs {
+			switch x := ins.(type) {
+			case *ssa.Alloc:
+				if !regs[x] {
+					alive[x] = true
+					derived[x] = drv{x, ""}
+				}
+				continue
+			case *ssa.FieldAddr:
+				if d, ok := derived[x.X]; ok && alive[d.a] {
+					derived[x] = drv{d.a, d.path + fmt.Sprintf("f%d/", x.Field)}
+					continue
+				}
+			case *ssa.IndexAddr:
+				if d, ok := derived[x.X]; ok && alive[d.a] {
+					if c, isC := x.Index.(*ssa.Const); isC && c.Value != nil {
+						derived[x] = drv{d.a, d.path + "e" + c.Value.ExactString() + "/"}
+						continue
+					}
+				}
+			case *ssa.Store:
+				if d, ok := derived[x.Addr]; ok && alive[d.a] {
+					if _, valDerived := derived[x.Val]; !valDerived {
+						overlap := false
+						for _, p := range info.paths[d.a] {
+							if strings.HasPrefix(p, d.path) || strings.HasPrefix(d.path, p) {
+								overlap = true
+							}
+						}
+						if !overlap {
+							info.stores[x] = true
+							info.paths[d.a] = append(info.paths[d.a], d.path)
+							continue
+						}
+					}
+				}
+			case *ssa.DebugRef:
+				continue
+			}
+			// any other use of a derived value lets the object escape (or reads it)
+			for _, op := range ins.Operands(nil) {
+				if op == nil || *op == nil {
+					continue
+				}
+				if d, ok := derived[*op]; ok {
+					alive[d.a] = false
+				}
+			}
+		}
+	}
+	return info
+}
+
+// leafInitialised reports whether the leaf reached by the given steps is covered by an initialising store.
+func (ii *initInfo) covered(a *ssa.Alloc, leafPath string) bool {
+	for _, p := range ii.paths[a] {
+		if strings.HasPrefix(leafPath, p) {
+			return true
+		}
+	}
+	return false
 }
